@@ -273,6 +273,34 @@ func ruleAMR(r *Run) {
 				continue
 			}
 			sc := ci.Common().StaticCallee()
+			// a blocking or synchronising call made directly in the helper or in one of its
+			// literals (second table audit: a package-level mutex held around mapFunc went through
+			// a version that only looked into module functions), and calls whose target is not
+			// known here: a hook stored in a variable or field can do the same
+			cn := calleeName(ci.Common())
+			switch cn {
+			case "(*sync.Mutex).Lock", "(*sync.RWMutex).Lock", "(*sync.RWMutex).RLock", "(*sync.Cond).Wait", "time.Sleep", "(*sync.Once).Do", "(*sync.Mutex).TryLock":
+				nA11++
+				a.bad("A11", "blocking-call:"+cn, ci, "the fan-out helper calls "+cn+" itself: synchronisation beyond the channel and wait-group protocol is outside the checked obligations (a lock or slot held while the map function runs makes nested fan-outs wait for each other forever)")
+				continue
+			}
+			if sc == nil && !ci.Common().IsInvoke() {
+				if _, isB := ci.Common().Value.(*ssa.Builtin); !isB && !a.isParam(ci.Common().Value, a.mapP) && !a.isParam(ci.Common().Value, a.redP) {
+					if _, isClosure := ci.Common().Value.(*ssa.MakeClosure); !isClosure {
+						nA11++
+						a.bad("A11", "unknown-callee", ci, "the fan-out helper calls a function value that is neither mapFunc nor reduceFunc (a hook held in a variable or field): what it does — block, synchronise, call back into the helper — is outside the checked protocol")
+						continue
+					}
+				}
+			}
+			if ci.Common().IsInvoke() {
+				switch ci.Common().Method.Name() {
+				case "Lock", "RLock", "Wait", "Acquire":
+					nA11++
+					a.bad("A11", "blocking-call:"+cn, ci, "the fan-out helper calls "+cn+" through an interface: synchronisation beyond the channel and wait-group protocol is outside the checked obligations")
+					continue
+				}
+			}
 			if sc == nil || !inModule(sc) {
 				continue
 			}
